@@ -19,13 +19,13 @@ def obligations():
     L.append(Ob('H5.gains', 'C18_gains.c', ['silk/gain_quant.c', 'silk/log2lin.c', 'silk/lin2log.c'], [], unwind=1,
                 unwindset=['harness:5', 'silk_gains_dequant:5', 'silk_gains_quant:5'], functions=['silk_gains_dequant', 'silk_gains_quant'], budget=600,
                 bounds='any previous index 0..63, any absolute (0..63) / delta (0..40) indices, 2 or 4 sub-frames; any positive encoder gains'))
-    L.append(Ob('H6.decode_pitch', 'C18_pitch.c', ['silk/decode_pitch.c', 'silk/pitch_est_tables.c'], [], unwind=1, nosimplify=True,
+    L.append(Ob('H6.decode_pitch', 'C18_pitch.c', ['silk/decode_pitch.c', 'silk/pitch_est_tables.c'], [], unwind=1,
                 unwindset=['harness:5', 'silk_decode_pitch:5'], functions=['silk_decode_pitch'], budget=600,
                 bounds='any lagIndex in int16, any contour index of the (fs, nb_subfr) codebook, fs in {8,12,16}, 2/4 sub-frames'))
     for ic in (0, 1, 2, 3, 4):
       for (fs, nb) in ((0, 0),):
         L.append(Ob('H3.decode_parameters.interp%d' % ic, 'C18_params.c', ['silk/decode_parameters.c', 'silk/gain_quant.c', 'silk/log2lin.c',
-                'silk/tables_LTP.c', 'silk/tables_other.c'] + TAB, ['-DSTUB_PITCH', '-DFIXINTERP=%d' % ic], unwind=1, tier=('thorough' if ic == 3 else 'quick'),
+                'silk/tables_LTP.c', 'silk/tables_other.c'] + TAB, ['-DSTUB_PITCH', '-DFIXINTERP=%d' % ic], unwind=1, tier=('thorough' if ic == 3 else 'quick'), memwords=10,
                 unwindset=['harness:17', 'nlsf_ok:17', 'silk_NLSF_decode:17', 'silk_NLSF2A:17', 'silk_bwexpander:17', 'silk_decode_parameters:17', 'silk_decode_parameters.3:6',
                            'silk_gains_dequant:5', 'silk_decode_pitch:5', 'memcpy:40', 'memset:40'],
                 functions=['silk_decode_parameters', 'silk_gains_dequant'], budget=(1500 if ic == 3 else 600),
